@@ -132,7 +132,13 @@ class Ctx:
             except FileNotFoundError:
                 pass
         t = time.time()
-        rc, out = self.coq_make([vo], timeout=timeout)
+        # build the Props file and every other module of the same area (cases files import helper modules such
+        # as <Area>/Cases.v that are not in the Props file's dependency cone; a stale .vo of those would make
+        # coqc fail with "inconsistent assumptions" after a model edit)
+        area_dir = os.path.dirname(props_path)
+        area_targets = sorted("theories/" + os.path.relpath(os.path.join(area_dir, f), os.path.join(COQ, "theories"))[:-2] + ".vo"
+                              for f in os.listdir(area_dir) if f.endswith(".v"))
+        rc, out = self.coq_make([vo] + [t for t in area_targets if t != vo], timeout=timeout)
         res = {"props_file": props_file, "obligations": obligations, "theorems": names,
                "build_s": round(time.time() - t, 1)}
         closed = len(re.findall(r"Closed under the global context", out))
@@ -165,8 +171,42 @@ class Ctx:
             self.violation({"kind": "coqchk-failed", "libs": lib_names, "log_tail": out[-3000:]}, nofail=True)
         return res
 
+    def ensure_modules(self, vfile_text):
+        """Build (full .vo, through bin/coqmake) every Scalibr module a generated cases file imports.
+        Cases files often import helper modules (e.g. Walk.Cases) that are not in the dependency cone of the
+        Props file; without this a stale .vo gives 'inconsistent assumptions' after a model edit."""
+        import threading
+        if not hasattr(self, "_mods_built"):
+            self._mods_built = set()
+            self._mods_lock = threading.Lock()
+        mods = set()
+        for m in re.finditer(r"From\s+Scalibr\s+Require\s+(?:Import|Export)?\s*([^.]*(?:\.[A-Za-z_][^.\s]*)*)\s*\.", vfile_text[:20000]):
+            for tok in m.group(1).split():
+                if re.match(r"^[A-Za-z_][\w]*(\.[A-Za-z_][\w']*)+$", tok):
+                    mods.add(tok)
+        for m in re.finditer(r"Require\s+(?:Import|Export)?\s+((?:Scalibr\.[\w.']+\s*)+)\.", vfile_text[:20000]):
+            for tok in m.group(1).split():
+                mods.add(tok[len("Scalibr."):])
+        with self._mods_lock:
+            todo = sorted(t for t in mods if t not in self._mods_built)
+            targets = []
+            for t in todo:
+                rel = "theories/" + t.replace(".", "/")
+                if os.path.exists(os.path.join(COQ, rel + ".v")):
+                    targets.append(rel + ".vo")
+            # group by area so that each coqmake call takes one area lock
+            by_area = {}
+            for t in targets:
+                by_area.setdefault(t.split("/")[1], []).append(t)
+            for area, ts in sorted(by_area.items()):
+                rc, out = self.coq_make(ts)
+                if rc != 0:
+                    self.log("ensure_modules: build of %s failed:\n%s" % (ts, out[-1500:]))
+            self._mods_built.update(todo)
+
     def run_cases(self, name, vfile_text, timeout=1800):
         """Compile a generated cases file. It must `Print` definitions; returns (rc, output)."""
+        self.ensure_modules(vfile_text)
         d = os.path.join(BUILD, "cases")
         os.makedirs(d, exist_ok=True)
         p = os.path.join(d, name + ".v")
